@@ -151,10 +151,9 @@ def reset_index_(df: pd.DataFrame, *, names: Optional[SWCNames] = None) -> None:
     """Reset node index to start with zero."""
     names = get_names(names)
     roots = df[names.pid] == -1
-    root_loc = roots.argmax()
-    root_id = df.loc[root_loc, names.id]  # type:ignore
-    df[names.id] = df[names.id] - root_id
-    df[names.pid] = df[names.pid].where(roots, df[names.pid] - root_id)
+    offset = df[names.id].min()
+    df[names.id] = df[names.id] - offset
+    df[names.pid] = df[names.pid].where(roots, df[names.pid] - offset)
 
 
 def _copy_and_apply(fn: Callable, df: pd.DataFrame, *args, **kwargs):
